@@ -1,33 +1,657 @@
 package main
 
-// Goroutine scheduler (visible-operation interleaving). Placeholder: filled in later.
+// Goroutine scheduler for concurrent code ("sched" mode).
+//
+// Every interpreted goroutine runs on a real Go goroutine, but only the one holding the
+// baton executes. Context switches happen at visible operations (channel operations, lock
+// acquisition, go, timer firing, sleep/yield): when the running goroutine blocks or ends, the
+// next one is a free choice of the exploration; when it could continue, switching away costs
+// one pre-emption and is allowed only within the pre-emption bound. All choices go through
+// Ctx.pick, so the stateless depth-first search of explore.go enumerates the schedules while
+// the solver decides data-dependent branches and obligations along each of them.
 
 import (
+	"fmt"
 	"go/types"
+	"strings"
 
 	"golang.org/x/tools/go/ssa"
 )
 
-type Goroutine struct{ id int }
-type schedAbort struct{}
-type Sched struct{}
+const (
+	gRunnable = iota
+	gBlocked
+	gDone
+)
 
-func (s *Sched) traceStrings() []string                               { return nil }
-func (s *Sched) yield(fr *Frame, what string)                         {}
-func (s *Sched) lock(fr *Frame, k *Value, how string)                 {}
-func (s *Sched) unlock(fr *Frame, k *Value, how string)               {}
-func (s *Sched) tryLock(fr *Frame, k *Value) bool                     { return true }
-func (s *Sched) wakeWG(k *Value)                                      {}
-func (s *Sched) waitWG(fr *Frame, k *Value)                           {}
-func (s *Sched) send(fr *Frame, ch *Chan, v Value)                    {}
-func (s *Sched) recv(fr *Frame, ch *Chan, t types.Type) (Value, bool) { return nil, false }
-func (s *Sched) closeChan(fr *Frame, ch *Chan)                        {}
-func (s *Sched) selectOp(fr *Frame, in *ssa.Select) Value             { return nil }
-
-func (c *Ctx) spawn(fr *Frame, fv Value, args []Value, call *ssa.CallCommon) {
-	panic(unsupported("go statement (scheduler mode not enabled)"))
+type Goroutine struct {
+	id      int
+	name    string
+	wake    chan struct{}
+	state   int
+	cond    func() bool
+	what    string // what it is blocked on (for reports)
+	onMutex *Value
+	depth   int
+	cur     *Frame
+	timer   *Timer // pseudo-goroutine: an armed timer
 }
 
+type Timer struct {
+	id    int
+	armed bool
+	fn    Value
+	cell  *Value // identity of the *time.Timer object
+}
+
+type mutexState struct {
+	held    bool
+	readers int
+	owner   *Goroutine
+}
+
+type schedAbort struct{}
+
+type Sched struct {
+	c        *Ctx
+	gs       []*Goroutine
+	cur      *Goroutine
+	timers   []*Timer
+	byCell   map[*Value]*Timer
+	preempts int
+	trace    []string
+	kill     chan struct{}
+	done     chan struct{}
+	abort    any
+	mutexes  map[*Value]*mutexState
+	wgWait   map[*Value]bool
+	main     *Goroutine
+	ended    bool
+	steps    int
+}
+
+func (s *Sched) traceStrings() []string { return s.trace }
+
+func (s *Sched) note(format string, a ...any) {
+	if len(s.trace) < 400 {
+		s.trace = append(s.trace, fmt.Sprintf(format, a...))
+	}
+}
+
+// ---------------------------------------------------------------------------
+
 func (c *Ctx) runScheduled(entry *ssa.Function, args []Value) {
-	panic(unsupported("scheduler mode"))
+	s := &Sched{c: c, kill: make(chan struct{}), done: make(chan struct{}), mutexes: map[*Value]*mutexState{}, byCell: map[*Value]*Timer{}, wgWait: map[*Value]bool{}}
+	c.sched = s
+	g := s.newG("main")
+	s.main = g
+	s.cur = g
+	go s.body(g, func() { c.call(nil, entry, args, nil) })
+	g.wake <- struct{}{}
+	<-s.done
+	close(s.kill)
+	if s.abort != nil {
+		panic(s.abort)
+	}
+}
+
+func (s *Sched) newG(name string) *Goroutine {
+	if len(s.gs) >= s.c.w.cfg.MaxGoroutines {
+		s.c.w.mu.Lock()
+		s.c.w.cuts[fmt.Sprintf("more than %d goroutines in one run (unfair re-queue loops are not followed further)", s.c.w.cfg.MaxGoroutines)]++
+		s.c.w.mu.Unlock()
+		panic(pathEnd{"goroutine bound"})
+	}
+	g := &Goroutine{id: len(s.gs), name: name, wake: make(chan struct{}, 1)}
+	s.gs = append(s.gs, g)
+	return g
+}
+
+// body runs one interpreted goroutine on a real goroutine.
+func (s *Sched) body(g *Goroutine, f func()) {
+	select {
+	case <-g.wake:
+	case <-s.kill:
+		return
+	}
+	defer func() {
+		if r := recover(); r != nil {
+			if _, ok := r.(schedAbort); ok {
+				return
+			}
+			// any path-ending condition ends the whole run
+			s.endRun(r)
+			return
+		}
+	}()
+	s.c.depth = 0
+	f()
+	g.state = gDone
+	s.note("g%d:end", g.id)
+	if g == s.main {
+		s.endRun(nil)
+		return
+	}
+	s.leave(g)
+}
+
+func (s *Sched) endRun(reason any) {
+	if s.ended {
+		return
+	}
+	s.ended = true
+	s.abort = reason
+	close(s.done)
+}
+
+// park makes g wait for the baton (or die with the run).
+func (s *Sched) park(g *Goroutine) {
+	g.depth, g.cur = s.c.depth, s.c.cur
+	select {
+	case <-g.wake:
+		s.c.depth, s.c.cur = g.depth, g.cur
+	case <-s.kill:
+		panic(schedAbort{})
+	}
+}
+
+func (s *Sched) enabled(g *Goroutine) bool {
+	switch g.state {
+	case gRunnable:
+		return true
+	case gBlocked:
+		return g.cond != nil && g.cond()
+	}
+	return false
+}
+
+// others returns the goroutines (and armed timers, as pseudo-goroutines) other than g that can run now.
+func (s *Sched) others(g *Goroutine) []*Goroutine {
+	var out []*Goroutine
+	start := 0
+	if g != nil {
+		start = g.id + 1
+	}
+	n := len(s.gs)
+	for k := 0; k < n; k++ {
+		o := s.gs[(start+k)%n]
+		if o != g && s.enabled(o) {
+			out = append(out, o)
+		}
+	}
+	for _, t := range s.timers {
+		if t.armed {
+			out = append(out, &Goroutine{id: -1 - t.id, timer: t})
+		}
+	}
+	return out
+}
+
+// transfer hands the baton from g to next; g waits until it is chosen again.
+func (s *Sched) transfer(g *Goroutine, next *Goroutine) {
+	s.steps++
+	if s.steps > 20000 {
+		s.c.incomplete("schedule step bound reached")
+		panic(pathEnd{"sched-steps"})
+	}
+	if next.timer != nil {
+		t := next.timer
+		t.armed = false
+		ng := s.newG(fmt.Sprintf("timer%d", t.id))
+		fn := t.fn
+		go s.body(ng, func() { s.c.callValue(nil, fn, nil, nil) })
+		s.note("fire:t%d->g%d", t.id, ng.id)
+		next = ng
+	}
+	s.cur = next
+	s.note("->g%d", next.id)
+	next.wake <- struct{}{}
+	if g != nil {
+		s.park(g)
+		s.cur = g
+	}
+}
+
+// leave: g has finished; pick someone else to run (free choice) or notice quiescence.
+func (s *Sched) leave(g *Goroutine) {
+	next := s.chooseNext(g)
+	if next == nil {
+		s.stuck()
+		return
+	}
+	s.transfer(nil, next)
+}
+
+func (s *Sched) chooseNext(g *Goroutine) *Goroutine {
+	// a goroutine waiting for quiescence runs only when nothing else can
+	var normal, quiesce []*Goroutine
+	for _, o := range s.others(g) {
+		if o.what == "quiesce" && o.state == gBlocked {
+			quiesce = append(quiesce, o)
+		} else {
+			normal = append(normal, o)
+		}
+	}
+	if len(normal) > 0 {
+		// delay bounding: the default is the next goroutine in round-robin order; choosing the
+		// k-th one instead costs k delays
+		return normal[s.delayPick(len(normal), 0, "next goroutine")]
+	}
+	if len(quiesce) > 0 {
+		return quiesce[0]
+	}
+	return nil
+}
+
+// stuck: nothing can run and the main goroutine has not finished.
+func (s *Sched) stuck() {
+	var ws []string
+	for _, o := range s.gs {
+		if o.state == gBlocked {
+			ws = append(ws, fmt.Sprintf("g%d(%s) waits for %s", o.id, o.name, o.what))
+		}
+	}
+	s.c.violation("deadlock:global", s.main.cur, "no goroutine can run: "+strings.Join(ws, "; "))
+	s.endRun(pathEnd{"deadlock"})
+	panic(schedAbort{})
+}
+
+// delayPick chooses one of n ordered alternatives; alternative k costs k delays of the budget.
+func (s *Sched) delayPick(n int, base int, what string) int {
+	left := s.c.w.cfg.Preempt - s.preempts
+	if left < 0 {
+		left = 0
+	}
+	if n > left+1 {
+		n = left + 1
+	}
+	k := s.c.pick(n, what)
+	s.preempts += k
+	return k
+}
+
+// point: the running goroutine is about to perform a visible operation and could continue.
+func (s *Sched) point(fr *Frame, what string) {
+	g := s.cur
+	if s.preempts >= s.c.w.cfg.Preempt {
+		return
+	}
+	var os []*Goroutine
+	for _, o := range s.others(g) {
+		if !(o.what == "quiesce" && o.state == gBlocked) {
+			os = append(os, o)
+		}
+	}
+	if len(os) == 0 {
+		return
+	}
+	k := s.delayPick(1+len(os), 0, "preempt at "+what)
+	if k == 0 {
+		return
+	}
+	s.note("preempt:g%d@%s", g.id, what)
+	s.transfer(g, os[k-1])
+}
+
+// block: g cannot proceed until cond holds.
+func (s *Sched) block(fr *Frame, cond func() bool, what string) {
+	g := s.cur
+	for !cond() {
+		g.state, g.cond, g.what = gBlocked, cond, what
+		if fr != nil {
+			g.cur = fr
+		}
+		next := s.chooseNext(g)
+		if next == nil {
+			// nobody else can run: this goroutine will never wake up
+			s.stuck()
+		}
+		s.transfer(g, next)
+	}
+	g.state, g.cond, g.what, g.onMutex = gRunnable, nil, "", nil
+}
+
+func (s *Sched) yield(fr *Frame, what string) {
+	s.point(fr, what)
+}
+
+// quiesce blocks the caller until no other goroutine can run and no timer is armed.
+// A goroutine still waiting for a mutex at that moment can never get it: deadlock.
+func (s *Sched) quiesce(fr *Frame) {
+	g := s.cur
+	for {
+		if len(s.others(g)) == 0 {
+			break
+		}
+		g.state, g.cond, g.what = gBlocked, func() bool { return true }, "quiesce"
+		var normal []*Goroutine
+		for _, o := range s.others(g) {
+			normal = append(normal, o)
+		}
+		next := normal[s.delayPick(len(normal), 0, "next goroutine")]
+		s.transfer(g, next)
+	}
+	g.state, g.cond, g.what = gRunnable, nil, ""
+	for _, o := range s.gs {
+		if o.state == gBlocked && o.onMutex != nil {
+			var ws []string
+			for _, p := range s.gs {
+				if p.state == gBlocked {
+					ws = append(ws, fmt.Sprintf("g%d(%s) waits for %s", p.id, p.name, p.what))
+				}
+			}
+			s.c.violation("deadlock:mutex", o.cur, "at quiescence a goroutine is still waiting for a mutex: "+strings.Join(ws, "; "))
+			break
+		}
+	}
+}
+
+// ---------------------------------------------------------------------------
+// go, mutexes, wait groups
+
+func (c *Ctx) spawn(fr *Frame, fv Value, args []Value, call *ssa.CallCommon) {
+	s := c.sched
+	if s == nil {
+		panic(unsupported("go statement (scheduler mode not enabled for this harness)"))
+	}
+	name := "go"
+	if cl, ok := fv.(*Closure); ok && cl != nil && cl.fn != nil {
+		name = cl.fn.Name()
+	}
+	g := s.newG(name)
+	go s.body(g, func() { c.callValue(nil, fv, args, call) })
+	s.note("g%d:go g%d(%s)", s.cur.id, g.id, name)
+	s.point(fr, "go")
+}
+
+func (s *Sched) mstate(k *Value) *mutexState {
+	m := s.mutexes[k]
+	if m == nil {
+		m = &mutexState{}
+		s.mutexes[k] = m
+	}
+	return m
+}
+
+func (s *Sched) lock(fr *Frame, k *Value, how string) {
+	m := s.mstate(k)
+	s.point(fr, "lock")
+	g := s.cur
+	if how == "RLock" {
+		if m.held {
+			g.onMutex = k
+			s.block(fr, func() bool { return !m.held }, s.lockName(fr, "RLock"))
+		}
+		m.readers++
+		return
+	}
+	if m.held || m.readers > 0 {
+		g.onMutex = k
+		s.block(fr, func() bool { return !m.held && m.readers == 0 }, s.lockName(fr, "Lock"))
+	}
+	m.held, m.owner = true, g
+}
+
+func (s *Sched) lockName(fr *Frame, how string) string {
+	fn, site := s.c.site(fr)
+	return fmt.Sprintf("%s at %s [%s]", how, shortFn(fn), site)
+}
+
+func shortFn(fn string) string {
+	if i := strings.LastIndex(fn, "/"); i >= 0 {
+		return fn[i+1:]
+	}
+	return fn
+}
+
+func (s *Sched) unlock(fr *Frame, k *Value, how string) {
+	m := s.mstate(k)
+	if how == "RUnlock" {
+		if m.readers == 0 {
+			s.c.violation("panic:unlock", fr, "sync: RUnlock of unlocked RWMutex")
+			panic(pathEnd{"panic"})
+		}
+		m.readers--
+		return
+	}
+	if !m.held {
+		s.c.violation("panic:unlock", fr, "sync: unlock of unlocked mutex")
+		panic(pathEnd{"panic"})
+	}
+	m.held, m.owner = false, nil
+}
+
+func (s *Sched) tryLock(fr *Frame, k *Value) bool {
+	m := s.mstate(k)
+	if m.held || m.readers > 0 {
+		return false
+	}
+	m.held, m.owner = true, s.cur
+	return true
+}
+
+func (s *Sched) wakeWG(k *Value) {}
+
+func (s *Sched) waitWG(fr *Frame, k *Value) {
+	s.block(fr, func() bool { return s.c.wg[k] == 0 }, "WaitGroup.Wait")
+}
+
+// ---------------------------------------------------------------------------
+// channels
+
+func (s *Sched) send(fr *Frame, ch *Chan, v Value) {
+	s.point(fr, "send")
+	if ch == nil {
+		s.block(fr, func() bool { return false }, "send on nil channel")
+	}
+	if ch.closed {
+		s.c.violation("panic:send-on-closed", fr, "send on closed channel")
+		panic(pathEnd{"panic"})
+	}
+	if ch.cap > 0 {
+		if len(ch.buf) >= ch.cap {
+			s.block(fr, func() bool { return len(ch.buf) < ch.cap || ch.closed }, s.chanName(fr, "send"))
+			if ch.closed {
+				s.c.violation("panic:send-on-closed", fr, "send on closed channel")
+				panic(pathEnd{"panic"})
+			}
+		}
+		ch.buf = append(ch.buf, v)
+		return
+	}
+	// unbuffered: offer the value and wait until a receiver has taken it
+	for ch.offered {
+		s.block(fr, func() bool { return !ch.offered }, s.chanName(fr, "send"))
+	}
+	ch.offered, ch.offer, ch.taken = true, v, false
+	s.block(fr, func() bool { return ch.taken }, s.chanName(fr, "send (waiting for a receiver)"))
+	ch.taken = false
+}
+
+func (s *Sched) chanName(fr *Frame, op string) string {
+	fn, site := s.c.site(fr)
+	return fmt.Sprintf("channel %s at %s [%s]", op, shortFn(fn), site)
+}
+
+func (s *Sched) canRecv(ch *Chan) bool {
+	return ch != nil && (len(ch.buf) > 0 || ch.offered || ch.closed)
+}
+
+func (s *Sched) takeRecv(ch *Chan, elem types.Type) (Value, bool) {
+	if len(ch.buf) > 0 {
+		v := ch.buf[0]
+		ch.buf = ch.buf[1:]
+		return v, true
+	}
+	if ch.offered {
+		v := ch.offer
+		ch.offered, ch.offer, ch.taken = false, nil, true
+		return v, true
+	}
+	return s.c.zero(elem), false // closed
+}
+
+func (s *Sched) recv(fr *Frame, ch *Chan, elem types.Type) (Value, bool) {
+	s.point(fr, "recv")
+	if ch == nil {
+		s.block(fr, func() bool { return false }, "receive from nil channel")
+	}
+	if !s.canRecv(ch) {
+		ch.recvWaiting++
+		s.block(fr, func() bool { return s.canRecv(ch) }, s.chanName(fr, "receive"))
+		ch.recvWaiting--
+	}
+	return s.takeRecv(ch, elem)
+}
+
+func (s *Sched) closeChan(fr *Frame, ch *Chan) {
+	ch.closed = true
+}
+
+func (s *Sched) canSend(ch *Chan) bool {
+	if ch == nil {
+		return false
+	}
+	if ch.closed {
+		return true // will panic
+	}
+	if ch.cap > 0 {
+		return len(ch.buf) < ch.cap
+	}
+	return ch.recvWaiting > 0 && !ch.offered
+}
+
+func (s *Sched) selectOp(fr *Frame, in *ssa.Select) Value {
+	c := s.c
+	tb := c.tb
+	s.point(fr, "select")
+	chans := make([]*Chan, len(in.States))
+	for i, st := range in.States {
+		chans[i], _ = c.get(fr, st.Chan).(*Chan)
+	}
+	ready := func() []int {
+		var r []int
+		for i, st := range in.States {
+			if st.Dir == types.SendOnly {
+				if s.canSend(chans[i]) {
+					r = append(r, i)
+				}
+			} else if s.canRecv(chans[i]) {
+				r = append(r, i)
+			}
+		}
+		return r
+	}
+	nrecv := 0
+	for _, st := range in.States {
+		if st.Dir == types.RecvOnly {
+			nrecv++
+		}
+	}
+	res := make(Tuple, 2+nrecv)
+	res[0], res[1] = tb.Int(-1, 64), tb.Bool(false)
+	ri := 2
+	for _, st := range in.States {
+		if st.Dir == types.RecvOnly {
+			res[ri] = c.zero(st.Chan.Type().Underlying().(*types.Chan).Elem())
+			ri++
+		}
+	}
+	rs := ready()
+	if len(rs) == 0 {
+		if !in.Blocking {
+			return res
+		}
+		for i, ch := range chans {
+			if ch != nil && in.States[i].Dir == types.RecvOnly {
+				ch.recvWaiting++ // a blocked select with a receive case counts as a waiting receiver
+			}
+		}
+		s.block(fr, func() bool { return len(ready()) > 0 }, s.chanName(fr, "select"))
+		for i, ch := range chans {
+			if ch != nil && in.States[i].Dir == types.RecvOnly {
+				ch.recvWaiting--
+			}
+		}
+		rs = ready()
+	}
+	k := rs[c.pick(len(rs), "select case")]
+	st := in.States[k]
+	res[0] = tb.Int(int64(k), 64)
+	if st.Dir == types.SendOnly {
+		ch := chans[k]
+		if ch.closed {
+			c.violation("panic:send-on-closed", fr, "send on closed channel")
+			panic(pathEnd{"panic"})
+		}
+		v := copyVal(c.get(fr, st.Send))
+		if ch.cap > 0 {
+			ch.buf = append(ch.buf, v)
+		} else {
+			ch.offered, ch.offer, ch.taken = true, v, false
+			s.block(fr, func() bool { return ch.taken }, s.chanName(fr, "send (waiting for a receiver)"))
+			ch.taken = false
+		}
+		return res
+	}
+	v, ok := s.takeRecv(chans[k], st.Chan.Type().Underlying().(*types.Chan).Elem())
+	res[1] = tb.Bool(ok)
+	ri = 2
+	for i, sst := range in.States {
+		if sst.Dir == types.RecvOnly {
+			if i == k {
+				res[ri] = v
+			}
+			ri++
+		}
+	}
+	return res
+}
+
+// ---------------------------------------------------------------------------
+// timers (time.AfterFunc / Stop / Reset): firing is a scheduling choice
+
+func inAfterFunc(c *Ctx, fr *Frame, fn *ssa.Function, a []Value) Value {
+	if c.sched == nil {
+		panic(unsupported("time.AfterFunc outside scheduler mode"))
+	}
+	s := c.sched
+	cell := new(Value)
+	tt := c.w.namedType("time", "Timer")
+	*cell = c.zero(tt)
+	t := &Timer{id: len(s.timers), armed: true, fn: a[1], cell: cell}
+	s.timers = append(s.timers, t)
+	s.byCell[cell] = t
+	s.note("g%d:arm t%d", s.cur.id, t.id)
+	return Ptr{p: cell}
+}
+
+func inTimerStop(c *Ctx, fr *Frame, fn *ssa.Function, a []Value) Value {
+	p := a[0].(Ptr)
+	t := c.sched.byCell[p.p]
+	if t == nil {
+		panic(unsupported("Stop on unknown timer"))
+	}
+	was := t.armed
+	t.armed = false
+	c.sched.note("g%d:stop t%d", c.sched.cur.id, t.id)
+	return c.tb.Bool(was)
+}
+
+func inTimerReset(c *Ctx, fr *Frame, fn *ssa.Function, a []Value) Value {
+	p := a[0].(Ptr)
+	t := c.sched.byCell[p.p]
+	if t == nil {
+		panic(unsupported("Reset on unknown timer"))
+	}
+	was := t.armed
+	t.armed = true
+	c.sched.note("g%d:reset t%d", c.sched.cur.id, t.id)
+	return c.tb.Bool(was)
+}
+
+func init() {
+	intrinsics["time.AfterFunc"] = inAfterFunc
+	intrinsics["(*time.Timer).Stop"] = inTimerStop
+	intrinsics["(*time.Timer).Reset"] = inTimerReset
 }
